@@ -1692,6 +1692,9 @@ class ThroughputCalculator:
             )
         current = self.task_stats[task]
         count = current.total_count
+        # `current_samples` already contains all samples carried over from previous invocations. Start with an empty list
+        # again, otherwise they would be carried over (and thus counted) twice.
+        current.unprocessed = []
         last_sample = None
         for sample in current_samples:
             last_sample = sample
